@@ -7,9 +7,9 @@
    lists of Z; every quantity the code computes in floating point *after* the integer bookkeeping
    (one multiplication by the unit factor, the division sum/count, the rescaling ratio, duration /
    rate * 1e3, the depth terms) is computed in an abstract number type N with operations ofZ, nmul,
-   ndiv, nadd, in exactly the order the code applies them.  The theorems instantiate N := option Q
-   (exact arithmetic, None = NaN); Corr.v instantiates N := exact float tokens with Coq's primitive
-   binary64 operations.  Where NumPy raises, the model returns None. *)
+   ndiv, nadd, in exactly the order the code applies them.  The theorems and the comparator Corr.v both
+   use the instance N := option Q (exact arithmetic, None = NaN) defined at the end of this file.
+   Where NumPy raises, the model returns None. *)
 From Coq Require Import ZArith QArith List Bool.
 Import ListNotations.
 Open Scope Z_scope.
